@@ -49,6 +49,9 @@ class FnReport:
 def gen_function(ctx, c, case=None):
     """Generate the obligations of one target contract (optionally restricted to one case of a split)."""
     rep = FnReport(c)
+    import itertools
+    from pyvc import sym as _sym
+    _sym._fresh = itertools.count()  # names depend on the function only: the VC text is a function of the source
     try:
         finfo = extract.find_function(c.qual)
         c.finfo = finfo
@@ -81,6 +84,12 @@ def gen_function(ctx, c, case=None):
 
 def group_name(ob):
     return f"{ob.fn}/{ob.name}"
+
+
+def lkey(name):
+    """Ledger key: obligation group name with source line numbers removed (robust to shifted lines)."""
+    import re
+    return re.sub(r"L\d+", "L", name)
 
 
 def load_json(p, default):
@@ -141,7 +150,7 @@ def value_from_model(v, model):
         if z3.is_false(t):
             return False
         if z3.is_string_value(t):
-            return t.as_string()
+            return solve._unescape('"' + t.as_string().replace('"', '""') + '"')
         nm = t.decl().name() if t.num_args() == 0 else None
         if nm is not None and nm in model:
             return model[nm]
@@ -273,6 +282,7 @@ def run_check(prop, tier, seed, args, t0):
         g = groups.setdefault(group_name(ob), {"obls": [], "kind": ob.kind, "expect": ob.expect})
         g["obls"].append((ob, r))
     ledger = load_json(LEDGER, {}).get(prop, {})
+    ledger_set = {lkey(g) for g in ledger.get("discharged", [])}
     known = [k for k in load_json(KNOWN, {"findings": []})["findings"] if k["property"] == prop]
     n_obl = n_dis = 0
     by_backend = {}
@@ -309,7 +319,7 @@ def run_check(prop, tier, seed, args, t0):
     # functions that could not be brought under contract on this tree
     for rep in reports:
         if rep.status != "ok":
-            lost = [g for g in ledger.get("discharged", []) if g.startswith(rep.key + "/") or g.startswith(rep.key + "{")]
+            lost = [g for g in ledger_set if g.startswith(rep.key + "/") or g.startswith(rep.key + "{")]
             if lost:
                 violations.append(no_input_violation(prop, f"{rep.key}/<generation>", rep.detail,
                                                      f"{len(lost)} obligations discharged on the baseline can no "
@@ -319,7 +329,7 @@ def run_check(prop, tier, seed, args, t0):
     # undecided obligations that were discharged on the baseline -> violation without input
     still_undecided = []
     for u in undecided:
-        if u["obligation"] in ledger.get("discharged", []):
+        if lkey(u["obligation"]) in ledger_set:
             nv = try_native_search(plan, prop, u)
             violations.append(nv)
         else:
@@ -559,7 +569,7 @@ def try_native_search(plan, prop, u, known=(), refuted=False):
     if k:
         p = write_replay(prop, gname, payload)
         return {"class": "known", "what": f"{k['id']}: {k['what']} [{gname}]", "replay": p}
-    if gname in ledger.get("discharged", []):
+    if lkey(gname) in {lkey(g) for g in ledger.get("discharged", [])}:
         payload["note"] = "obligation was discharged on the baseline tree and now fails; no failing input found"
         p = write_replay(prop, gname, payload)
         return {"class": "nofail", "obligation": gname, "replay": p}
